@@ -1333,6 +1333,13 @@ func (timeComp) Gen(rng *rand.Rand, tier string) [][]string {
 		h = append(h, "has 0b", "sleep "+fmt.Sprint(250*ms), "sweep", "has 0b", "has 0a", "sleep "+fmt.Sprint(100*ms), "sweep", "has 0b", "has 0a")
 		hs = append(hs, h)
 	}
+	// an Upsert with a span of zero (or below the stored one) on a present key: the span is unchanged, the countdown restarts
+	for d, kind := range []string{"tc", "peer"} {
+		h := []string{fmt.Sprintf("begin timecache kind=%s span=%d", kind, 60*ms)}
+		h = append(h, fmt.Sprintf("upsert 0a %d -", 900*ms), "sleep "+fmt.Sprint(600*ms), fmt.Sprintf("upsert 0a %d -", d*20*ms),
+			"sleep "+fmt.Sprint(500*ms), "sweep", "has 0a", "sleep "+fmt.Sprint(700*ms), "sweep", "has 0a")
+		hs = append(hs, h)
+	}
 	// "keep for ever" spans (up to the largest Duration): the expiry arithmetic must not wrap
 	for d, big := range []string{"9223372036854775807", "7884000000000000000", "9223372036854775806"} {
 		kind := []string{"tc", "peer", "tc"}[d]
